@@ -568,6 +568,19 @@ func (s *TermStore) Cmp(op Op, x, y *Term) *Term {
 	if x == y {
 		return Bool(op == OpUle || op == OpSle)
 	}
+	// x+d < x  (unsigned overflow test) when the ranges exclude overflow
+	if (op == OpUlt || op == OpUle) && x.op == OpAdd && (x.a == y || x.b == y) {
+		if _, _, ok := urange(x); ok { // urange(OpAdd) succeeds only without overflow
+			if op == OpUlt {
+				return tFalse
+			}
+		}
+	}
+	if (op == OpUle || op == OpUlt) && y.op == OpAdd && (y.a == x || y.b == x) {
+		if _, _, ok := urange(y); ok && op == OpUle {
+			return tTrue
+		}
+	}
 	// range-based shortcuts for zero-extended small values
 	if lo, hi, ok := urange(x); ok {
 		if lo2, hi2, ok2 := urange(y); ok2 {
@@ -605,9 +618,31 @@ func urange(t *Term) (lo, hi uint64, ok bool) {
 			return l, h, true
 		}
 		return 0, mask(t.a.w), true
-	case OpVar, OpExtract:
+	case OpExtract:
+		if t.k&0xff == 0 {
+			if l, h, ok := urange(t.a); ok && h <= mask(t.w) {
+				return l, h, true
+			}
+		}
 		if t.w < 64 {
 			return 0, mask(t.w), true
+		}
+	case OpVar:
+		if t.w < 64 {
+			return 0, mask(t.w), true
+		}
+	case OpSub:
+		if t.b.IsConst() {
+			if l, h, ok := urange(t.a); ok && l >= t.b.k {
+				return l - t.b.k, h - t.b.k, true
+			}
+		}
+	case OpUDiv:
+		if t.b.IsConst() && t.b.k > 0 {
+			if l, h, ok := urange(t.a); ok {
+				return l / t.b.k, h / t.b.k, true
+			}
+			return 0, mask(t.w) / t.b.k, true
 		}
 	case OpAnd:
 		if t.b.IsConst() {
